@@ -72,12 +72,13 @@ Ltac step M R :=
             assert (H : x = e / k) by reflexivity; clearbody x end
         ].
 
-(* quotients by 2^64 of values that fit in 64 bits are zero *)
-Ltac zero_quotients R :=
-  repeat match goal with H : ?x = ?e / 2^64 |- _ =>
-    let H0 := fresh "Z0" in
-    assert (H0 : x = 0) by abstract (rewrite H; apply Z.div_small; unfold u64, R in *; lia);
-    clear H; subst x end.
+(* a 128-bit value shifted right by 64 fits in 64 bits: its own quotient by 2^64 is zero.  These facts
+   remove the (provably zero) quotients that appear when [u64 q] is expanded with Z.mod_eq. *)
+Ltac shifted64_small R :=
+  repeat match goal with H : ?q = ?e / 2^64 |- _ =>
+    lazymatch goal with Hz : q / 2^64 = 0 |- _ => fail | _ => idtac end;
+    let Hz := fresh "Zq" in
+    assert (Hz : q / 2^64 = 0) by abstract (rewrite H; apply Z.div_small; unfold u64, R in *; lia) end.
 
 Theorem fe_mul_inner_correct a0 a1 a2 a3 a4 b0 b1 b2 b3 b4 :
   0 <= a0 < 2^56 -> 0 <= a1 < 2^56 -> 0 <= a2 < 2^56 -> 0 <= a3 < 2^56 -> 0 <= a4 < 2^52 ->
@@ -150,12 +151,13 @@ Proof.
   change (u64 (fe_mul_inner_R * 2^12)) with (fe_mul_inner_R * 2^12).
   change (fe_mul_inner_R / 2^4) with 0x1000003D1.
   repeat (step fe_mul_inner_M fe_mul_inner_R).
-  zero_quotients fe_mul_inner_R.
+  shifted64_small fe_mul_inner_R.
   split.
   { abstract (unfold u64, fe_mul_inner_R in *; repeat split; try (subst; apply Z.mod_pos_bound; lia); try lia). }
   abstract (
   unfold u64, fe_mul_inner_R, val5 in *;
   repeat match goal with H : _ = _ |- _ => rewrite Z.mod_eq in H by lia end;
+  repeat match goal with Hz : ?q / 2^64 = 0 |- _ => rewrite Hz in *; clear Hz end;
   repeat match goal with
   | H : ?q = ?e / ?k |- _ => rewrite <- H in *; clear H
   end;
@@ -166,60 +168,3 @@ Proof.
     try (apply Z.divide_mul_l; apply Z.mod_divide; [unfold P256; lia | vm_compute; reflexivity]);
     try (apply Z.divide_opp_r; apply Z.divide_mul_l; apply Z.mod_divide; [unfold P256; lia | vm_compute; reflexivity])).
 Qed.
-
-Theorem fe_sqr_inner_correct a0 a1 a2 a3 a4 :
-  0 <= a0 < 2^56 -> 0 <= a1 < 2^56 -> 0 <= a2 < 2^56 -> 0 <= a3 < 2^56 -> 0 <= a4 < 2^52 ->
-  fe_sqr_inner_k a0 a1 a2 a3 a4 (fun r0 r1 r2 r3 r4 =>
-  (0 <= r0 < 2^52 /\ 0 <= r1 < 2^52 /\ 0 <= r2 < 2^52 /\ 0 <= r3 < 2^52 /\ 0 <= r4 < 2^49) /\
-  (val5 r0 r1 r2 r3 r4 - val5 a0 a1 a2 a3 a4 * val5 a0 a1 a2 a3 a4) mod P256 = 0).
-Proof.
-  intros Ha0 Ha1 Ha2 Ha3 Ha4.
-  pose proof (mulb a0 a0 (2^56-1) (2^56-1) ltac:(lia) ltac:(lia)) as P00.
-  pose proof (mulb a0 a1 (2^56-1) (2^56-1) ltac:(lia) ltac:(lia)) as P01.
-  pose proof (mulb a0 a2 (2^56-1) (2^56-1) ltac:(lia) ltac:(lia)) as P02.
-  pose proof (mulb a0 a3 (2^56-1) (2^56-1) ltac:(lia) ltac:(lia)) as P03.
-  pose proof (mulb a0 a4 (2^56-1) (2^52-1) ltac:(lia) ltac:(lia)) as P04.
-  pose proof (mulb a1 a1 (2^56-1) (2^56-1) ltac:(lia) ltac:(lia)) as P11.
-  pose proof (mulb a1 a2 (2^56-1) (2^56-1) ltac:(lia) ltac:(lia)) as P12.
-  pose proof (mulb a1 a3 (2^56-1) (2^56-1) ltac:(lia) ltac:(lia)) as P13.
-  pose proof (mulb a1 a4 (2^56-1) (2^52-1) ltac:(lia) ltac:(lia)) as P14.
-  pose proof (mulb a2 a2 (2^56-1) (2^56-1) ltac:(lia) ltac:(lia)) as P22.
-  pose proof (mulb a2 a3 (2^56-1) (2^56-1) ltac:(lia) ltac:(lia)) as P23.
-  pose proof (mulb a2 a4 (2^56-1) (2^52-1) ltac:(lia) ltac:(lia)) as P24.
-  pose proof (mulb a3 a3 (2^56-1) (2^56-1) ltac:(lia) ltac:(lia)) as P33.
-  pose proof (mulb a3 a4 (2^56-1) (2^52-1) ltac:(lia) ltac:(lia)) as P34.
-  pose proof (mulb a4 a4 (2^52-1) (2^52-1) ltac:(lia) ltac:(lia)) as P44.
-  assert (Hprod : val5 a0 a1 a2 a3 a4 * val5 a0 a1 a2 a3 a4 =
-     a0*a0 + (2*(a0*a1)) * 2^52 + (2*(a0*a2) + a1*a1) * 2^104
-     + (2*(a0*a3) + 2*(a1*a2)) * 2^156
-     + (2*(a0*a4) + 2*(a1*a3) + a2*a2) * 2^208
-     + (2*(a1*a4) + 2*(a2*a3)) * 2^260
-     + (2*(a2*a4) + a3*a3) * 2^312 + (2*(a3*a4)) * 2^364 + a4*a4 * 2^416)
-    by (unfold val5; ring).
-  rewrite Hprod; clear Hprod.
-  cbv beta delta [fe_sqr_inner_k].
-  (* the doublings a_i * 2 never wrap *)
-  assert (D0 : u64 (a0 * 2) = a0 * 2) by (unfold u64; apply Z.mod_small; lia).
-  assert (D1 : u64 (a1 * 2) = a1 * 2) by (unfold u64; apply Z.mod_small; lia).
-  assert (D2 : u64 (a2 * 2) = a2 * 2) by (unfold u64; apply Z.mod_small; lia).
-  assert (D3 : u64 (a3 * 2) = a3 * 2) by (unfold u64; apply Z.mod_small; lia).
-  assert (D4 : u64 (a4 * 2) = a4 * 2) by (unfold u64; apply Z.mod_small; lia).
-  rewrite ?D0, ?D1, ?D2, ?D3, ?D4. clear D0 D1 D2 D3 D4.
-  replace (a0 * 2 * a3) with (2 * (a0 * a3)) by ring.
-  replace (a1 * 2 * a2) with (2 * (a1 * a2)) by ring.
-  replace (a1 * 2 * a3) with (2 * (a1 * a3)) by ring.
-  replace (a2 * 2 * a3) with (2 * (a2 * a3)) by ring.
-  generalize dependent (a0*a0); intros p00 ?.
-  generalize dependent (a0*a3); intros p03 ?.
-  generalize dependent (a1*a1); intros p11 ?.
-  generalize dependent (a1*a2); intros p12 ?.
-  generalize dependent (a1*a3); intros p13 ?.
-  generalize dependent (a2*a2); intros p22 ?.
-  generalize dependent (a2*a3); intros p23 ?.
-  generalize dependent (a3*a3); intros p33 ?.
-  generalize dependent (a4*a4); intros p44 ?.
-  change (u64 (fe_sqr_inner_R * 2^12)) with (fe_sqr_inner_R * 2^12).
-  change (fe_sqr_inner_R / 2^4) with 0x1000003D1.
-  repeat (step fe_sqr_inner_M fe_sqr_inner_R).
-  Show.
-Abort.
